@@ -176,6 +176,7 @@ type ChanObj struct {
 	hb     hbClock // close → receive-of-zero
 	timer  *Timer
 	id     int
+	everSent bool // an unbuffered channel that is only ever closed is read-only for its receivers
 }
 
 func (e *Exec) newChan(n int) *ChanObj {
@@ -189,10 +190,8 @@ func (t *Thread) chanSend(cv, x Value, pos token.Pos) {
 	if c == nil {
 		t.blockForever("send-nil", new(int), pos, func() bool { return false })
 	}
-	if c.cap == 0 {
-		t.e.unsupported("send on unbuffered channel at " + t.posOf(pos))
-	}
-	en := func() bool { return c.closed || len(c.buf) < c.cap }
+	c.everSent = true
+	en := func() bool { return t.e.sendEnabled(c, t) }
 	t.visible(&SyncOp{kind: "send", obj: c, acc: "enq", tpos: pos, enabled: en})
 	if !en() {
 		t.blockForever("send", c, pos, en)
@@ -230,7 +229,7 @@ func (t *Thread) chanRecv(cv Value, commaOk bool, et types.Type, pos token.Pos) 
 		t.blockForever("recv-nil", new(int), pos, func() bool { return false })
 	}
 	racc := "deq"
-	if c.cap == 0 {
+	if c.cap == 0 && !c.everSent {
 		racc = "r" // a channel that is never sent to (only closed): receiving just reads its state
 	}
 	t.visible(&SyncOp{kind: "recv", obj: c, acc: racc, tpos: pos, enabled: c.recvReady})
@@ -272,8 +271,8 @@ func (t *Thread) selectOp(fr *frame, in *ssa.Select) Value {
 		if s.Dir == types.SendOnly {
 			states[i].send = true
 			states[i].val = t.get(fr, s.Send)
-			if states[i].c != nil && states[i].c.cap == 0 {
-				e.unsupported("select send on unbuffered channel")
+			if states[i].c != nil {
+				states[i].c.everSent = true
 			}
 		}
 	}
@@ -284,7 +283,7 @@ func (t *Thread) selectOp(fr *frame, in *ssa.Select) Value {
 				continue
 			}
 			if s.send {
-				if s.c.closed || len(s.c.buf) < s.c.cap {
+				if e.sendEnabled(s.c, t) {
 					r = append(r, i)
 				}
 			} else if s.c.recvReady() {
@@ -303,7 +302,7 @@ func (t *Thread) selectOp(fr *frame, in *ssa.Select) Value {
 			switch {
 			case s.send:
 				accs = append(accs, "enq")
-			case s.c.cap == 0:
+			case s.c.cap == 0 && !s.c.everSent:
 				// receiving from a channel that is only ever closed (never sent to) only reads it
 				accs = append(accs, "r")
 			default:
@@ -485,4 +484,37 @@ func stubTimeSleep(t *Thread, fn *ssa.Function, args []Value, pos token.Pos) Val
 	t.blockForever("sleep", c, pos, c.recvReady)
 	t.doRecv(c, func() Value { return nil })
 	return nil
+}
+
+// sendEnabled: a buffered channel accepts a value while it has room; an unbuffered one when a
+// receiver is parked on it (rendezvous: the value is handed over through a one-slot buffer that the
+// waiting receiver then takes). Sending on a closed channel is "enabled" and panics.
+func (e *Exec) sendEnabled(c *ChanObj, self *Thread) bool {
+	if c.closed {
+		return true
+	}
+	if c.cap > 0 {
+		return len(c.buf) < c.cap
+	}
+	if len(c.buf) > 0 {
+		return false
+	}
+	for _, o := range e.threads {
+		if o == self || o.done || o.op == nil {
+			continue
+		}
+		switch o.op.kind {
+		case "recv":
+			if o.op.obj == interface{}(c) {
+				return true
+			}
+		case "select":
+			for i, ob := range o.op.objs {
+				if ob == interface{}(c) && o.op.accs[i] != "enq" {
+					return true
+				}
+			}
+		}
+	}
+	return false
 }
